@@ -420,8 +420,17 @@ func matchFormat(in Input, f *run.Failure, op, cause string) bool {
 	if a := in.Arg; a != nil && a.K == "num" && float64(a.N) > 100000 && float64(a.N) < two63 {
 		return false // never generated (would format that many digits)
 	}
-	obs, c := ottoFormat(op, float64(in.X), in.Arg)
-	return c == cause && obs != "" && f.Actual == obs
+	x := float64(in.X)
+	if obs, c := ottoFormat(op, x, in.Arg); c == cause && obs != "" && f.Actual == obs {
+		return true
+	}
+	if x == 0 && math.Signbit(x) && cause != "negzero" {
+		// a tree in which only the -0 defect is repaired shows the other
+		// deviations on +0
+		obs, c := ottoFormat(op, 0, in.Arg)
+		return c == cause && obs != "" && f.Actual == obs
+	}
+	return false
 }
 
 // ------------------------------------------------------------ ToNumber(String)
